@@ -82,6 +82,11 @@ impl Rng {
     pub fn range(&mut self, lo: u64, hi_incl: u64) -> u64 {
         lo + self.below(hi_incl - lo + 1)
     }
+    /// uniform in lo..=m where m is picked uniformly from `choices`
+    pub fn range_pick(&mut self, lo: u64, choices: &[u64]) -> u64 {
+        let m = *self.pick(choices);
+        self.range(lo, m.max(lo))
+    }
     pub fn chance(&mut self, pct: u64) -> bool {
         self.below(100) < pct
     }
